@@ -36,7 +36,8 @@ def run(ctx):
         mcs[cfg] = mc.as_dict()
         states += mc.distinct
         trans += mc.generated
-        nconc = 2 if tier == "quick" else 4
+        # wire concretisations per scenario; the largest enumeration gets one (each scenario opens up to three listeners)
+        nconc = 2 if tier == "quick" else (1 if cfg == "MC_HttpCache_urls_thorough" else 2)
         rep = ctx.read_harness_report(ctx.harness("replay_httpcache", ["replay", mc.out_path, n, nconc], out_name="replay_%s.out" % cfg, timeout=3000))
         total["evaluations"] += rep["evaluations"]
         total["distinct_nontrivial"] += rep["distinct_nontrivial"]
@@ -56,7 +57,7 @@ def run(ctx):
         "evaluations": total["evaluations"], "distinct_nontrivial": total["distinct_nontrivial"], "samples": [],
         "rule": "every terminal behaviour of HttpCache.tla for the configured constants (N chunks, statuses, drop points incl. 'while waiting for the "
                 "response head' and 'after k chunks', pre-existing entry, temp dir / entry dir unusable, 1..MaxUrls URLs, kinds sym and file), each under "
-                "2 (quick) or 4 (thorough) wire concretisations (line-aligned/mid-line chunk boundaries x Content-Length/chunked); non-trivial = distinct scenario",
+                "1-2 wire concretisations (line-aligned/mid-line chunk boundaries x Content-Length/chunked); non-trivial = distinct scenario",
         "tlc": mcs, "replay_classes": total["classes"],
     }
     return ctx.finish("model_checking", cov, assumptions=[
